@@ -21,6 +21,7 @@ package main
 //	iter <h> <ro|idx>           run the iterator to its end plus two extra calls
 
 import (
+	"encoding/binary"
 	"bytes"
 	"fmt"
 	"strconv"
@@ -70,6 +71,7 @@ func init() {
 	registerExec("hcount", hHcount)
 	registerExec("sum", hSum)
 	registerExec("iter", hIter)
+	registerExec("tamper", hTamper)
 	registerExec("iterm", hIterM)
 	registerExec("setu", func(st *State, a []string) string { return withUnhashed(st, func() string { return hSet(st, a) }) })
 	registerExec("appu", func(st *State, a []string) string { return withUnhashed(st, func() string { return hApp(st, a) }) })
@@ -526,6 +528,23 @@ func hSum(st *State, a []string) string {
 		}
 	}
 	return errStr(hd.vw.SetBacking(n))
+}
+
+// tamper <h> <ov>: the length mix-in node of a list view's backing is replaced by a hand-written
+// one holding ov (Backing().Left(), NewPairNode, SetBacking) - the way a client that assembles
+// backings itself (proofs, partial trees) can hand a list view a length its limit does not allow.
+// Every read that starts from Length() must then report the error, never data (C17/C12).
+func hTamper(st *State, a []string) string {
+	hd := st.h(a[0])
+	ov, _ := strconv.ParseUint(a[1], 10, 64)
+	n := hd.vw.Backing()
+	l, err := n.Left()
+	if err != nil {
+		return "err"
+	}
+	var ln tree.Root
+	binary.LittleEndian.PutUint64(ln[:8], ov)
+	return errStr(hd.vw.SetBacking(tree.NewPairNode(l, &ln)))
 }
 
 // iterOf starts the read-only (ro) or index-based iterator of a view.
